@@ -59,7 +59,8 @@ def run_asyncio_adapter(inp):
             await asyncio.sleep(0)
 
     try:
-        with iosim.alarm(10.0), detloop.running() as loop:
+        with iosim.alarm(120.0), detloop.running() as loop:
+            loop.set_exception_handler(lambda _l, _c: None)      # asyncio's own log lines are not observables
             try:
                 loop.run_until_complete(main(loop))
             except iosim.SpinDetected:
@@ -181,7 +182,7 @@ def run_async_tls(inp):
         finally:
             mem.closed = True
 
-    with iosim.alarm(10.0), detloop.running() as loop:
+    with iosim.alarm(120.0), detloop.running() as loop:
         try:
             loop.run_until_complete(main())
         except iosim.SpinDetected:
@@ -240,7 +241,8 @@ def run_adapter_multi(inp):
             await asyncio.sleep(0)
 
     try:
-        with iosim.alarm(10.0), detloop.running() as loop:
+        with iosim.alarm(120.0), detloop.running() as loop:
+            loop.set_exception_handler(lambda _l, _c: None)      # asyncio's own log lines are not observables
             try:
                 loop.run_until_complete(main(loop))
             except iosim.SpinDetected:
